@@ -1,5 +1,6 @@
 import Percival.Proofs.HttpRequest
 import Percival.Proofs.HttpDecode
+import Percival.Proofs.HttpSeg
 /-!
 # C09 — the HTTP client decodes every well-formed response exactly; the request is sent verbatim
 
@@ -72,21 +73,44 @@ example : sample.WF false := by
     simp only [List.mem_cons, List.mem_nil_iff, or_false] at hc
     rcases hc with rfl | rfl <;> (refine ⟨by decide, by decide, by decide⟩)
 
-/-
-**Segmentation independence (P2) — not proved.**  Full statement: for every well-formed `r` whose header
-blocks are at most `MAXHDR` bytes and whose chunk-size lines are shorter than `MAXCHLEN - 1`, every limit
-`max ≥ |body|` and every reader behaviour `oracle` which delivers the stream completely (any arrival schedule,
-then EOF),
-    `runAll ovf oracle o ishead max (serialize r ishead)` ends in `.callback (some r') ws` with the same `r'`
-    as in `decode_serialize`
-("a decision taken on a prefix is the decision taken on any extension", per handler).  What is proved about
-arbitrary segmentation is C08 (`run_terminates_with_one_callback`: one callback, no abort, range facts).  That the
-decoded *content* does not depend on the segmentation is covered by the correspondence run only: every
-well-formed case of `tools/props/c0809_common.py` is cut into random segments (whole / bytewise / random sizes /
-sizes around the reader's 4096-byte buffer, with EAGAINs) and the real code's callback is compared (L1) with the
-model's under the same segmentation, and the model's decoding of each generated value is checked against the
-value itself (`wf` op).
--/
+/-- **Segmentation independence (P2).**  For every well-formed `r` whose header blocks are at most `MAXHDR + 1`
+bytes and whose chunk-size lines (size, extension) are shorter than `MAXCHLEN - 1` bytes — the client's own limits;
+beyond them the C rejects a response when it arrives in small enough pieces —, every limit `max ≥ |body|`, and
+**every** behaviour of the buffered reader and the network which delivers the stream completely (`oracle`: any
+state machine answering every wait with "at least `k` bytes, `extra` more" — every segmentation into reads down to
+single bytes, every position of the reader's buffer boundary; when the stream cannot satisfy a wait the run reports
+EOF): the run ends in exactly one callback with exactly `r`'s status, header names and values (optional white space
+trimmed) in order, and exactly its body. -/
+theorem decode_any_segmentation {σ : Type} (ovf : Bool → Nat → Int) (oracle : σ → Nat → Nat → σ × Http.Arrival)
+    (hfa : ∀ s c k, ∃ e, (oracle s c k).2 = Http.Arrival.more e)
+    (o : σ) (r : Resp) (ishead : Bool) (max : Nat)
+    (hwf : r.WF ishead) (hmax : (expectedBody r ishead).length ≤ max)
+    (hsz : r.framing.body.length + 2 ≤ Http.SIZE_MAX)
+    (hblocks : (∀ b ∈ r.interim, b.serialize.length ≤ Percival.Gen.Http.MAXHDR + 1) ∧
+      r.final.serialize.length ≤ Percival.Gen.Http.MAXHDR + 1)
+    (hlines : ∀ cs le tail, r.framing = .chunked cs le tail →
+      (∀ c ∈ cs, (hex c.1.length ++ c.2).length + 1 < Percival.Gen.Http.MAXCHLEN) ∧
+      ([48] ++ le).length + 1 < Percival.Gen.Http.MAXCHLEN) :
+    ∃ ws, Http.runAll ovf oracle o ishead max (serialize r ishead) =
+      .callback (some { status := (r.final.status : Int), headers := expectedHeaders r,
+                        body := some (expectedBody r ishead) }) ws :=
+  Percival.Proofs.HttpSeg.decode_segmented ovf oracle hfa o r ishead max hwf hmax hsz hblocks hlines
+
+/-- `sample` satisfies the size hypotheses; delivered one byte per wait it decodes to status 200, `A: b`,
+    `Transfer-Encoding: chunked`, body "hi!" -/
+example : (∀ b ∈ sample.interim, b.serialize.length ≤ Percival.Gen.Http.MAXHDR + 1) ∧
+    sample.final.serialize.length ≤ Percival.Gen.Http.MAXHDR + 1 := by
+  refine ⟨?_, by decide⟩
+  intro b hb
+  simp only [sample, List.mem_singleton] at hb
+  subst hb
+  decide
+
+example :
+    (match Http.runAll (fun _ _ => 0) (fun (_ : Unit) _ _ => ((), Http.Arrival.more 0)) () false 3 (serialize sample false) with
+     | .callback (some r) _ => decide (r.status = 200) && r.body == some [104, 105, 33] &&
+         r.headers == [([65], [98]), (sTransferEncoding, sChunked)]
+     | _ => false) = true := by decide +kernel
 
 /-- constants of `http.c` on which `decode_serialize` depends (regenerated from the source) -/
 theorem gen_constants : Percival.Gen.Http.INTERIM_MIN = 100 ∧ Percival.Gen.Http.INTERIM_MAX = 199 ∧
